@@ -10,7 +10,7 @@ EXTENDS Naturals, Integers, Sequences, BigZ, Dbl
 FunsQ == {"mpq_init", "mpq_clear", "mpq_set", "mpq_set_z", "mpq_set_ui", "mpq_set_si", "mpq_set_d", "mpq_set_num", "mpq_set_den",
           "mpq_get_num", "mpq_get_den", "mpq_swap", "mpq_canonicalize", "mpq_add", "mpq_sub", "mpq_mul", "mpq_div", "mpq_neg", "mpq_abs",
           "mpq_inv", "mpq_mul_2exp", "mpq_div_2exp", "mpq_cmp", "mpq_cmp_ui", "mpq_cmp_si", "mpq_cmp_z", "mpq_equal", "mpq_sgn",
-          "mpq_get_d"}
+          "mpq_get_d", "mpq_inits", "mpq_clears"}
 
 LOCAL SgnI(i) == IF i > 0 THEN 1 ELSE IF i < 0 THEN -1 ELSE 0
 LOCAL Bool(r, c) == (r # 0) = c
@@ -46,9 +46,12 @@ SigQ(f, A) == CASE f = "mpq_div" -> A[3][1] = "0"
 PostQ(f, A, O, r, x) ==
    CASE f = "mpq_init" -> Is(O[1], <<"0", "1">>)
      [] f = "mpq_clear" -> TRUE
+     [] f = "mpq_inits" -> \A k \in 1..3 : Is(O[k], <<"0", "1">>)
+     [] f = "mpq_clears" -> TRUE
      [] f = "mpq_set" -> Is(O[1], A[2])
      [] f = "mpq_set_z" -> Is(O[1], <<A[2], "1">>)
-     [] f \in {"mpq_set_ui", "mpq_set_si"} -> Is(O[1], <<A[2], A[3]>>)        \* stored as given (the caller canonicalises)
+     [] f \in {"mpq_set_ui", "mpq_set_si"} ->         \* stored as given (the caller canonicalises); zero may be stored as 0/1
+           Is(O[1], <<A[2], A[3]>>) \/ (A[2] = "0" /\ Is(O[1], <<"0", "1">>))
      [] f = "mpq_set_d" -> LET m == DSigned(A[2])  e == DExp(A[2]) IN
                            Is(O[1], IF e >= 0 THEN <<ZShl(m, e), "1">> ELSE QCanon(m, ZPow2(-e)))
      [] f = "mpq_set_num" -> Is(O[1], <<A[2], A[1][2]>>)
